@@ -13,6 +13,9 @@ checks = {
  "C01": (MC, "histbfs", "explicit-state BFS over event histories on the real implementation with a reference-ledger oracle",
    "Every history of chain events (12 block templates, reorgs of depth<=k with 4 branch patterns) and notification deliveries up to the stated depth is executed on the real follower code over a real chain database; in every reached state the queue is drained and all ledger queries are compared with a reference ledger and a consensus-library maturity oracle. Exhaustive within the bounds reported in the evidence.",
    "§5 C01"),
+ "C09": (MC, "histbfs", "explicit-state BFS over relay/confirm/conflict/reorg histories on the real implementation with a reference pending-set model",
+   "Every history of relayed transactions (wallet spend, incoming payment, child, conflict, duplicate), blocks that confirm them or their conflicts, reorganisations and deliveries up to the stated depth runs on the real follower; in every state the wallet's pending buckets, the read-back of each pending entry, the spent_by_unmined flag of every coin and two automatic-selection probes are compared with a reference pending model, together with the C01 ledger oracle.",
+   "§5 C09"),
  "C13": (MC, "enum", "bounded-exhaustive input enumeration against an independent BIP-39 reference",
    "Input-bounded model checking: every member of the described entropy / word-sequence families is run through the real mnemonic code and compared with an independent reference validated against BIP-39 vectors.", "§5 C13"),
  "C14": (MC, "enum", "bounded-exhaustive (seed x path) and corruption enumeration against an independent BIP-32 reference",
